@@ -5,6 +5,7 @@ drv_proto, life ops (C11; not verified, exercised on every line):
 
   life run <tok>*      run the event sequence on one side from the initial (open) state
   life runhook <tok>*  the same for a side whose `on_disconnect` hook raises
+  life runwith <H|-><C|-> <tok>*   ... whose hook raises (H) and/or whose stream's close() raises (C)
 
 tokens (<r> = s sent | e eof | h hook raised, close_catchall off | H hook raised, close_catchall on):
   cb            closeBegin (also closeAgain)        ce<r>           closeEnd
@@ -15,7 +16,7 @@ tokens (<r> = s sent | e eof | h hook raised, close_catchall off | H hook raised
   to            the innermost wait loop times out
 
 output: `acc=<accepted>/<total> closed=.. inClose=.. chan=.. hook=<n> cleaned=.. tables=.. pending=.. blocked=..
-         out=<s>:<v<payload>|eof|timeout|closeexc>,... raised=<user|attr|hook>,...`
+         out=<s>:<v<payload>|eof|timeout|closeexc>,... raised=<user|attr|hook|channel>,...`
 -/
 namespace Rpyc.Drv
 open Rpyc Rpyc.Proto.Life
@@ -78,6 +79,7 @@ def showCloseExc : CloseExc → String
   | .user => "user"
   | .attributeError => "attr"
   | .hook => "hook"
+  | .channel => "channel"
 
 def commasL (l : List String) : String := if l.isEmpty then "-" else ",".intercalate l
 
@@ -95,6 +97,15 @@ def lifeOp : List String → String
       let (l, n) := runPrefix Life.init 0 evs
       "acc=" ++ toString n ++ "/" ++ toString evs.length ++ " " ++ showLife l
     | none => "bad-op"
+  | "runwith" :: cfg :: toks =>
+    -- <cfg> = two letters: H | - (the disconnect hook raises) and C | - (the stream's close() raises)
+    match cfg.toList, toks.mapM parseLifeEv with
+    | [h, c], some evs =>
+      if (h = 'H' || h = '-') && (c = 'C' || c = '-') then
+        let (l, n) := runPrefix (Life.initWith (h = 'H') (c = 'C')) 0 evs
+        "acc=" ++ toString n ++ "/" ++ toString evs.length ++ " " ++ showLife l
+      else "bad-op"
+    | _, _ => "bad-op"
   | "runhook" :: toks =>
     -- the same on a side whose `on_disconnect` hook raises
     match toks.mapM parseLifeEv with
